@@ -19,6 +19,11 @@ let frame_of proto kind =
   | "lcp", "prej_ip6cp" -> Some (FrLcpX XPrejIp6cp) | "lcp", "prej_other" -> Some (FrLcpX XPrejOther)
   | "lcp", "crej_auth" -> Some (FrLcpX XCrejAuth) | "lcp", "cnak_pap" -> Some (FrLcpX XCnakPap)
   | "lcp", "cnak_chap" -> Some (FrLcpX XCnakChap)
+  (* any suggested protocol other than CHAP (0x0000, EAP, ...) is stored by ProcessConfNak like PAP is: the model
+     only distinguishes "CHAP: a challenge is sent at LCP up" from "anything else: none is" *)
+  | "lcp", "cnak_zero" | "lcp", "cnak_eap" -> Some (FrLcpX XCnakPap)
+  | "lcp", "cnak_short" -> Some (FrLcp (FCnak true))
+  | "lcp", "crej_all" -> Some (FrLcpX XCrejAuth)
   | "lcp", k -> (match cframe_of k with Some c -> Some (FrLcp c) | None -> None)
   | "ipcp", k -> (match cframe_of k with Some c -> Some (FrIpcp c) | None -> None)
   | "ip6cp", k -> (match cframe_of k with Some c -> Some (FrIp6cp c) | None -> None)
